@@ -26,11 +26,19 @@ fn run_one(prop: &str, fam: &str, p: &Node) -> Bad {
     }
 }
 
+fn big_stack<T: Send + 'static>(f: impl FnOnce() -> T + Send + 'static) -> T {
+    std::thread::Builder::new().stack_size(256 << 20).spawn(f).unwrap().join().unwrap()
+}
+
 pub fn main_for(prop: &'static str) {
     let ctx = Ctx::new(prop, "release");
     if let Some(v) = ctx.replay_case() {
         guard::enter(&v.to_string());
         let fam = v["family"].as_str().unwrap_or("").to_string();
+        if fam == "wide" {
+            let (ch, n, r) = (v["channels"].as_u64().unwrap_or(0) as usize, v["frames"].as_u64().unwrap_or(0) as usize, v["rem"].as_u64().unwrap_or(0) as usize);
+            ctx.finish_replay(big_stack(move || catch(|| wide_dispatch(ch, n, r)).unwrap_or_else(|e| Some(("wide.panic".into(), e)))).map(|x| format!("{}: {}", x.0, x.1)));
+        }
         let p = Node::parse(v["program"].as_str().unwrap_or("")).unwrap_or_else(|| {
             eprintln!("cannot parse program");
             std::process::exit(2)
@@ -79,6 +87,42 @@ pub fn main_for(prop: &'static str) {
             guard::leave();
         });
     }
+    if prop == "C05" {
+        // scale probe: the end-of-stream clauses for very wide frames ("every channel count")
+        let mut widths: Vec<usize> = WIDE_QUICK.to_vec();
+        if !quick {
+            widths.extend(WIDE_THOROUGH);
+        }
+        let cases = std::thread::scope(|sc| {
+            std::thread::Builder::new()
+                .stack_size(256 << 20)
+                .spawn_scoped(sc, || {
+                    let mut cases = 0u64;
+                    for &ch in &widths {
+                        for n in 0..=3usize {
+                            for r in [0usize, 1, ch - 1] {
+                                let case = json!({"family": "wide", "channels": ch, "frames": n, "rem": r});
+                                guard::enter(&case.to_string());
+                                cases += 1;
+                                match catch(|| wide_dispatch(ch, n, r)) {
+                                    Ok(None) => ctx.observe(common::fnv_str(&format!("wide{ch}/{n}/{r}"))),
+                                    Ok(Some((k, m))) => ctx.violation(&k, case, m, Some(&|| wide_dispatch(ch, n, r).map(|x| x.1))),
+                                    Err(e) => ctx.violation("wide.panic", case, format!("[i32;{ch}] frames={n} trailing_samples={r}: panicked: {e}"), None),
+                                }
+                                guard::leave();
+                            }
+                        }
+                    }
+                    cases
+                })
+                .unwrap()
+                .join()
+                .unwrap()
+        });
+        evals.fetch_add(cases, Relaxed);
+        ctx.set("wide_frame_cases", json!(cases));
+        ctx.set("wide_frame_channel_counts", json!(widths));
+    }
     ctx.add_evals(evals.load(Relaxed));
     ctx.set("programs", json!(total_programs));
     ctx.set("horizon_calls_primary_run", json!(nexts.load(Relaxed)));
@@ -87,7 +131,7 @@ pub fn main_for(prop: &'static str) {
     if prop == "C04" {
         ctx.rule("programs: leaves = instrumented probe (length 0..3), from_iter, from_interleaved_samples_iter, equilibrium, gen, gen_mut; unary = map, scale_amp(0.5), scale_amp(-1), scale_amp(0), scale_amp(1), offset_amp, scale_amp_per_channel, offset_amp_per_channel, clip_amp, inspect, delay(0|1|2); binary = add_amp, mul_amp (right operand in the Signed / Float companion family), zip_map; all trees of depth <=2, all unary stacks to depth 3 (quick) / 4 (thorough); families f32, [i16;2], [u8;3], [f64;2], [i32;2], [i64;1] (the last two with values and clip thresholds that do not fit the Float companion's mantissa); each program run for longest source + total delay + 3 calls: frame n == interpreter (real Frame op applied pointwise, clip = clamp of the signed amplitude, delay = k equilibrium frames), every probe pulled exactly once per call and not at all while a delay above it is emitting silence, inspect saw exactly the frames that passed, and for every j <= horizon the program built over a borrowed probe, run j steps and dropped leaves the probe at frame j - delays; non-trivial = a program with at least one adaptor, distinct by (family, program)");
     } else {
-        ctx.rule("same program space as C04; per program: is_exhausted() before and after every next() == (calls >= T) with T from the exhaustion algebra (leaf: number of complete frames; unary: forwarded; delay(k): T+k; binary: min), 3 further calls return the interpreter's frames, until_exhausted() and lift() yield exactly T frames then None three times, into_interleaved_samples (iterator and next_sample) yields exactly T x channels samples in channel order then None, take(n) for n in 0..=T+2 yields exactly n frames with exact len/size_hint; interleaved sources of every sample count 0..=3N+1; non-trivial = a program with at least one adaptor, distinct by (family, program)");
+        ctx.rule("same program space as C04; per program: is_exhausted() before and after every next() == (calls >= T) with T from the exhaustion algebra (leaf: number of complete frames; unary: forwarded; delay(k): T+k; binary: min), 3 further calls return the interpreter's frames, until_exhausted() and lift() yield exactly T frames then None three times, into_interleaved_samples (iterator and next_sample) yields exactly T x channels samples in channel order then None, take(n) for n in 0..=T+2 yields exactly n frames with exact len/size_hint; interleaved sources of every sample count 0..=3N+1; scale probe: [i32; N] frames for the listed wide channel counts (byte and 16-bit boundaries included), 0..=3 frames plus 0 / 1 / N-1 trailing samples: from_interleaved_samples_iter, until_exhausted, into_interleaved_samples (both forms), take, add_amp of unequal lengths; non-trivial = a program with at least one adaptor, distinct by (family, program)");
     }
     ctx.sample(json!({"family":"[u8;3]","program":"add(delay1(probe3),scale_neg(iter2))"}));
     ctx.sample(json!({"family":"f32","program":"clip(zip(probe1,delay2(genmut)))"}));
